@@ -7,7 +7,7 @@
 use crate::{
     case::Case,
     net::NetStats,
-    script::{run_reader, run_writer, Env, ErrInfo, Payload},
+    script::{client_dialog, run_reader, run_writer, server_dialog, Env, ErrInfo, Payload},
     sim::{hdr_byte, Outcome, StreamRec, World, HDR_MAGIC},
 };
 use s2n_quic_dc::stream::testing::{Client, Server};
@@ -60,7 +60,9 @@ async fn client_stream(
     let req = Payload { key: case.key(ci, si, false), hdr: Some(hdr_byte(ci, si)), len: sc.req.len };
     let resp = Payload { key: case.key(ci, si, true), hdr: None, len: sc.resp.len };
     let (r, w) = stream.into_split();
-    if sc.client_concurrent {
+    if let Some(d) = &sc.dialog {
+        client_dialog(r, w, sc, d, req, resp, cw, cr, &env).await;
+    } else if sc.client_concurrent {
         let (_w, ()) = tokio::join!(
             run_writer(w, &sc.req, req, cw, &env),
             run_reader(r, &sc.resp, resp, 0, cr, &env)
@@ -124,7 +126,9 @@ async fn server_stream(
     let sc = &case.clients[ci].streams[si];
     let req = Payload { key: case.key(ci, si, false), hdr: Some(hdr[0]), len: sc.req.len };
     let resp = Payload { key: case.key(ci, si, true), hdr: None, len: sc.resp.len };
-    if sc.server_concurrent {
+    if let Some(d) = &sc.dialog {
+        server_dialog(r, w, sc, d, req, resp, sr, sw, &env).await;
+    } else if sc.server_concurrent {
         let (_w, ()) = tokio::join!(
             run_writer(w, &sc.resp, resp, sw, &env),
             run_reader(r, &sc.req, req, 1, sr, &env)
